@@ -16,20 +16,20 @@ type Loop struct {
 
 	// Whole-range information; RangeOf == nil when the loop is not a recognised
 	// "for every element of X, in order, exactly once" loop.
-	RangeOf  ssa.Value // the slice/array/string/map being ranged over
-	Index    ssa.Value // the value that indexes RangeOf inside the body (slices)
-	Next     *ssa.Next // for map/string range loops
+	RangeOf ssa.Value // the slice/array/string/map being ranged over
+	Index   ssa.Value // the value that indexes RangeOf inside the body (slices)
+	Next    *ssa.Next // for map/string range loops
 	// index loops over a suffix of a slice: for i := Start; i < len(PartialOf); i++
 	PartialOf    ssa.Value
 	PartialIndex ssa.Value
-	Start    int64     // first index value (0 for whole-range loops)
-	BodySucc int       // header successor index that enters the body
-	ExitSucc int       // header successor index that leaves the loop
+	Start        int64 // first index value (0 for whole-range loops)
+	BodySucc     int   // header successor index that enters the body
+	ExitSucc     int   // header successor index that leaves the loop
 }
 
 // LoopInfo holds all loops of a function.
 type LoopInfo struct {
-	Loops   []*Loop
+	Loops     []*Loop
 	byIndex   map[ssa.Value]*Loop
 	byNext    map[*ssa.Next]*Loop
 	byPartial map[ssa.Value]*Loop
